@@ -326,7 +326,7 @@ pub fn run(tier: Tier) {
         ((A, vec![0, A]), (2, vec![1, 2, A])),
     ];
     let pair_temps: Vec<usize> = match tier {
-        Tier::Quick => (0..temps.len()).filter(|i| *i < 14).collect(),
+        Tier::Quick => (0..temps.len()).collect(),
         Tier::Thorough => (0..temps.len()).collect(),
     };
     for i in &pair_temps {
@@ -335,7 +335,7 @@ pub fn run(tier: Tier) {
                 continue;
             }
             for (ca, cb) in &combos {
-                for base in bases.iter().take(tier.pick(5, 9)) {
+                for base in bases.iter().take(tier.pick(10, 10)) {
                     let mut rules = vec![];
                     for r in &temps[*i].1 {
                         rules.push(WRule { owner: ca.0, trusted: ca.1.clone(), rule: r.clone() });
@@ -377,7 +377,7 @@ pub fn run(tier: Tier) {
                     if o1 >= o2 {
                         continue;
                     }
-                    for base in bases.iter().take(tier.pick(4, 9)) {
+                    for base in bases.iter().take(tier.pick(10, 10)) {
                         let mut rs = vec![];
                         for r in rules {
                             rs.push(WRule { owner: *o1, trusted: trusted.clone(), rule: r.clone() });
@@ -463,7 +463,7 @@ pub fn run(tier: Tier) {
             let fperms = if nf <= 4 { permutations(nf) } else { vec![idf.clone(), idf.iter().rev().cloned().collect()] };
             let rperms = if nr <= 3 { permutations(nr) } else { vec![idr.clone(), idr.iter().rev().cloned().collect()] };
             // the full product for the single-template worlds, the two diagonals otherwise
-            let full = ci < n_a && tier == Tier::Thorough || (ci < n_a && ci % 7 == 0);
+            let full = ci < n_a;
             for (a, fp) in fperms.iter().enumerate() {
                 for (c, rp) in rperms.iter().enumerate() {
                     if (a == 0 && c == 0) || (!full && a != 0 && c != 0) {
@@ -540,7 +540,7 @@ pub fn run(tier: Tier) {
                     modes.push(vh::OrderMode::Ranked(ranks));
                 }
             } else {
-                let n = if tier == Tier::Thorough { 24 } else { 6 };
+                let n = if tier == Tier::Thorough { 120 } else { 24 };
                 for s in 0..n {
                     modes.push(vh::OrderMode::Seeded(s as u64 * 7919 + 1 + ctx.seed));
                 }
